@@ -369,7 +369,8 @@ async fn scenario(world: Rc<World>, sc: RcScript) -> AResult<(Vec<OutageResult>,
         }
         // wait for the outcome of this outage
         let budget_ms = 20_000 + (schedule_ms.min(20_000_000) as u64) + (max_attempts as u64 + 1) * (CONNECT_TIMEOUT_MS + 2_000) + 10_000;
-        let deadline = t0 + budget_ms;
+        // in timing mode the whole schedule is observed (the scenario's own horizon bounds the run)
+        let deadline = if sc.timing_only { t0 + 2 * HORIZON_MS } else { t0 + budget_ms };
         let notify = event_notify();
         loop {
             let left = deadline.saturating_sub(virtual_ms()).max(1);
